@@ -6,13 +6,48 @@ from ceos_alos2.sar_image.processed_data import processed_data_record as PROC
 from ceos_alos2.sar_leader import structure as LS
 from ceos_alos2.volume_directory.structure import volume_descriptor, file_descriptor, text_record
 
-def fill(rec, size, values, counts=None, defaults=True):
+def _random_value(rng, ln, kind, names, chain):
+    """random well-formed content for a leaf (numeric text for numeric adapters, a listed code for enums, ASCII text)"""
+    enum = [c[1] for c in chain if c[0] == 'Enum']
+    if kind.startswith('fmt:'):
+        if enum:
+            return int(rng.choice(list(enum[0].values())))
+        return int(rng.integers(0, 2 ** min(8 * ln, 31)))
+    if kind == 'bytes':
+        return bytes(rng.integers(0, 256, ln, dtype='uint8'))
+    if enum:
+        return str(rng.choice([str(v) for v in enum[0].values()]))
+    if 'AsciiInteger' in names:
+        r = rng.random()
+        if r < 0.15:
+            return ''
+        if r < 0.25:
+            return str(int(rng.integers(0, 2)))  # boundary values 0 / 1
+        return str(int(rng.integers(0, 10 ** min(ln - 1, 9)))) if ln > 1 else str(int(rng.integers(0, 10)))
+    if 'AsciiFloat' in names:
+        r = rng.random()
+        if r < 0.15:
+            return ''
+        x = float(rng.normal()) * 10 ** int(rng.integers(-3, 4))
+        for fmt in (f'{{:.{max(ln - 8, 1)}E}}', f'{{:.{max(ln - 9, 1)}f}}', '{:.3f}', '{:.1f}'):
+            t = fmt.format(x)
+            if len(t) <= ln:
+                return t
+        return '0'
+    alphabet = 'ABCDEFGHIJKLMNOPQRSTUVWXYZabcdefghijklmnopqrstuvwxyz0123456789 -_./:'
+    n = int(rng.integers(0, ln + 1))
+    return ''.join(rng.choice(list(alphabet), n))
+
+
+def fill(rec, size, values, counts=None, defaults=True, rng=None):
     out=[]; end = walk.describe(rec, counts or {}, 0, (), out)
     buf = bytearray(b' '*size)
     for path, off, ln, kind, chain in out:
         key = '.'.join(map(str,path))
         v = values.get(key)
         names = [c[0] for c in chain]
+        if v is None and rng is not None and kind.split(':')[0] in ('fmt', 'bytes', 'str') and key not in values:
+            v = _random_value(rng, ln, kind, names, chain)
         if kind.startswith('fmt:'):
             if v is None: v = 0
             buf[off:off+ln] = struct.pack(kind[4:], v)
@@ -32,7 +67,7 @@ def preamble(seq, sub1, typ, sub2, sub3, length):
     return {'preamble.record_sequence_number': seq, 'preamble.first_record_subtype': sub1, 'preamble.record_type': typ,
             'preamble.second_record_subtype': sub2, 'preamble.third_record_subtype': sub3, 'preamble.record_length': length}
 
-def image_file(data, level='1.5', year=2020, doy=60, ms0=1000, extra_hdr=None, extra_line=None):
+def image_file(data, level='1.5', year=2020, doy=60, ms0=1000, extra_hdr=None, extra_line=None, rng=None):
     nl, npx = data.shape
     if level == '1.1':
         rec, P, tc, bps, typ = SIG, 544, 'C*8', 8, 10
@@ -52,7 +87,7 @@ def image_file(data, level='1.5', year=2020, doy=60, ms0=1000, extra_hdr=None, e
         'prefix_suffix_data_locators.number_of_lines_per_burst': '',
         'scansar_burst_data_information.number_of_overlap_lines_with_adjacent_bursts': '',
     } | (extra_hdr or {})
-    hdr, _ = fill(IMGFD, 720, hv)
+    hdr, _ = fill(IMGFD, 720, hv, rng=rng)
     body = bytearray()
     for i in range(nl):
         lv = preamble(i+2, 50, typ, 18, 20, R) | {
@@ -64,34 +99,34 @@ def image_file(data, level='1.5', year=2020, doy=60, ms0=1000, extra_hdr=None, e
         } | (extra_line(i) if extra_line else {})
         if level == '1.1':
             lv['sensor_acquisition_date_microseconds'] = (ms0+i)*1000 + 7
-        pre, _ = fill(rec, P, lv)
+        pre, _ = fill(rec, P, lv, rng=rng)
         body += pre + raw[i].tobytes()
     return bytes(hdr) + bytes(body)
 
-def leader_file(n_att=3, n_chan=2, mapproj=1, fac_len=(1000,1200,1400,1600), year=2020, att_doy=60, att_ms=1000):
+def leader_file(n_att=3, n_chan=2, mapproj=1, fac_len=(1000,1200,1400,1600), year=2020, att_doy=60, att_ms=1000, rng=None, att_len=16384):
     parts = []
     counts = {('map_projection',): mapproj,
-        ('attitude','data_points'): n_att, ('attitude','blanks'): 16384-16-120*n_att,
+        ('attitude','data_points'): n_att, ('attitude','blanks'): att_len-16-120*n_att,
         ('data_quality_summary','relative_radiometric_quality','nominal_relative_radiometric_calibration_uncertainty'): n_chan,
         ('data_quality_summary','relative_radiometric_quality','blanks'): 512-32*n_chan,
         ('data_quality_summary','relative_geometric_quality','relative_misregistration_error'): n_chan,
         ('data_quality_summary','relative_geometric_quality','blanks'): 534+(8-n_chan)*32}
     for k in range(1,5): counts[(f'facility_related_data_{k}','raw_file_data')] = fac_len[k-1]-66
-    sizes = {'file_descriptor':720,'dataset_summary':4096,'map_projection':1620*mapproj,'platform_position':4680,'attitude':16384,
+    sizes = {'file_descriptor':720,'dataset_summary':4096,'map_projection':1620*mapproj,'platform_position':4680,'attitude':att_len,
              'radiometric_data':9860,'data_quality_summary':1620,'facility_related_data_5':5000}
     for k in range(1,5): sizes[f'facility_related_data_{k}'] = fac_len[k-1]
     values = {
         'file_descriptor.map_projection.number_of_records': mapproj,
-        'dataset_summary.scene_center_time': f'{year}0229120000123',
+        'dataset_summary.scene_center_time': f'{year}0228120000123',
         'dataset_summary.motion_compensation_indicator': '0', 'dataset_summary.base_band_conversion_flag':'YES',
         'dataset_summary.range_compression_flag':'NO','dataset_summary.echo_tracker_status':'ON',
         'dataset_summary.clutter_lock_applied_flag':'YES','dataset_summary.auto_focusing_applied_flag':'NO',
         'dataset_summary.weighting_function_in_azimuth':'1','dataset_summary.weighting_function_in_range':'1',
         'platform_position.orbital_elements_designator':'2',
-        'platform_position.datetime_of_first_point.date': f'{year}  2 29', 'platform_position.datetime_of_first_point.day_of_year': 60,
+        'platform_position.datetime_of_first_point.date': f'{year}  2 28', 'platform_position.datetime_of_first_point.day_of_year': 60,
         'platform_position.datetime_of_first_point.seconds_of_day': '43200.5',
         'attitude.number_of_points': n_att,
-        'attitude.preamble.record_length': 16384,
+        'attitude.preamble.record_length': att_len,
         'data_quality_summary.number_of_channels': n_chan,
         'radiometric_data.calibration_factor': '-83.0',
         'facility_related_data_5.calibration_mode_data_location_flag': 0,
@@ -105,16 +140,17 @@ def leader_file(n_att=3, n_chan=2, mapproj=1, fac_len=(1000,1200,1400,1600), yea
         values[f'facility_related_data_{k}.preamble.record_length'] = fac_len[k-1]
         values[f'facility_related_data_{k}.record_sequence_number'] = k
     total = sum(sizes.values())
-    buf, out = fill(LS.sar_leader_record, total, values, counts)
+    buf, out = fill(LS.sar_leader_record, total, values, counts, rng=rng)
     return bytes(buf)
 
-def volume_dir(nfp=4, created='2020030112345678'):
-    vd, _ = fill(volume_descriptor, 360, {'number_of_file_pointer_records': nfp, 'logical_volume_creation_datetime': created,
-          'physical_volume_id':'PHYS','logical_volume_id':'LOGI','volume_set_id':'VSET','logical_volume_generation_country':'JAPAN',
-          'logical_volume_generating_agency':'JAXA','logical_volume_generating_facility':'EICS','superstructure_format_control_document_id':'CEOS-SAR'})
-    fds = b''.join(bytes(fill(file_descriptor, 360, {'referenced_file_number': i+1})[0]) for i in range(nfp))
-    tx, _ = fill(text_record, 360, {'product_id':'PRODUCT:WBDR1.5RUD','location_and_datetime_of_product_creation':'PROCESS:JAPAN-JAXA-EICS  20200301 123456',
-          'physical_tape_id':'TAPE','scene_id':'ORBIT:ALOS2123450000','scene_location_id':'FRAME'})
+def volume_dir(nfp=4, created='2020030112345678', rng=None):
+    fixed = {} if rng is not None else {'physical_volume_id':'PHYS','logical_volume_id':'LOGI','volume_set_id':'VSET','logical_volume_generation_country':'JAPAN',
+          'logical_volume_generating_agency':'JAXA','logical_volume_generating_facility':'EICS','superstructure_format_control_document_id':'CEOS-SAR'}
+    vd, _ = fill(volume_descriptor, 360, {'number_of_file_pointer_records': nfp, 'logical_volume_creation_datetime': created} | fixed, rng=rng)
+    fds = b''.join(bytes(fill(file_descriptor, 360, {'referenced_file_number': i+1}, rng=rng)[0]) for i in range(nfp))
+    fixed = {} if rng is not None else {'product_id':'PRODUCT:WBDR1.5RUD','location_and_datetime_of_product_creation':'PROCESS:JAPAN-JAXA-EICS  20200301 123456',
+          'physical_tape_id':'TAPE','scene_id':'ORBIT:ALOS2123450000','scene_location_id':'FRAME'}
+    tx, _ = fill(text_record, 360, fixed, rng=rng)
     return bytes(vd)+fds+bytes(tx)
 
 def summary(files, shapes):
